@@ -101,7 +101,7 @@ def worker(k, jobs, results):
             res["outcome"] = "SURVIVED"
             res["ran"] = []
             for c in OWN[file]:
-                r = sh(f"VERIF_REPO={w}/repo ./run.sh {c} quick 2>&1 | tail -40", f"{w}/verif", 900)
+                r = sh(f"VERIF_REPO={w}/repo ./run.sh {c} quick 2>&1 | grep -E '^VIOLATION|^check |BUILD-FAILED|TIMEOUT' | tail -5", f"{w}/verif", 900)
                 res["ran"].append(c)
                 if "VIOLATION property=" in r.stdout:
                     res["outcome"] = "caught-by-" + c
